@@ -376,6 +376,36 @@ pub fn run(run: &mut Run) {
         }
     }
 
+    // ---------------- (ii-a) raw styles only: every string of length 3..5 over {backslash, both
+    //                  quotes, a letter} (a raw literal is its content verbatim, also where a
+    //                  backslash stands before the literal's own quote character)
+    run.sub("raw-strings");
+    {
+        let ab = ['\\', '\'', '"', 'a'];
+        for len in 3..=5usize {
+            for code in 0..ab.len().pow(len as u32) {
+                let mut c = code;
+                let mut value = String::new();
+                for _ in 0..len {
+                    value.push(ab[c % ab.len()]);
+                    c /= ab.len();
+                }
+                for s in st.iter().filter(|s| s.raw) {
+                    let triple = s.close.len() == 3;
+                    let qc = s.close.chars().next().unwrap();
+                    let ok = if triple { !value.contains(s.close) && !value.ends_with(qc) } else { !value.contains(qc) };
+                    if !ok || !run.take() {
+                        continue;
+                    }
+                    let src = format!("{}{}{}", s.open, value, s.close);
+                    let exp = if s.bytes { Exp::Bytes(value.as_bytes().to_vec()) } else { Exp::Str(value.clone()) };
+                    let class = if value.contains(&format!("\\{}", qc)) { "raw-backslash-before-own-quote" } else if value.contains('\\') { "raw-with-backslash" } else { "raw-with-other-quote" };
+                    judge(run, s.name, class, &src, &exp, &ctx);
+                }
+            }
+        }
+    }
+
     // ---------------- (ii-b) every pair and triple of escape atoms, valid and invalid: a literal
     //                  with any escape that names no code point is a compile error, whatever stands beside it
     run.sub("escape-sequences");
